@@ -36,6 +36,7 @@ type Outcome struct {
 	TraceHash    uint64
 	Nontrivial   bool
 	SimTime      time.Duration
+	SimSeconds   float64 // simulated time covered, when it is not the bubble's clock (e.g. an offset clock)
 	Steps        int
 	Counters     map[string]int64
 	Trace        []simrt.Event
@@ -89,7 +90,7 @@ type Result struct {
 	Nontrivial   int64             `json:"nontrivial"`
 	HashFile     string            `json:"hash_file"`
 	Counters     map[string]int64  `json:"counters"`
-	SimTimeNs    int64             `json:"sim_time_ns"`
+	SimTimeS     float64           `json:"sim_time_s"`
 	Steps        int64             `json:"steps"`
 	Batches      int               `json:"batches"`
 	WallS        float64           `json:"wall_s"`
@@ -284,7 +285,7 @@ func Main(t *testing.T, h *Harness) {
 				fmt.Fprintf(traceLog, "%d %016x %d %s %s\n", res.Evaluations, out.TraceHash, out.Steps, cl, out.Inconclusive)
 			}
 			res.Evaluations++
-			res.SimTimeNs += int64(out.SimTime)
+			res.SimTimeS += out.SimTime.Seconds() + out.SimSeconds
 			res.Steps += int64(out.Steps)
 			for k, v := range out.Counters {
 				res.Counters[k] += v
